@@ -7,7 +7,9 @@ out-of-bounds obligation of the interpreter, not a silent write.
 from __future__ import annotations
 
 import itertools
+import json
 import os
+import pathlib
 import random
 import sys
 import time
@@ -542,6 +544,7 @@ def main(tier: str) -> int:
                 else:
                     _replay(rep, d, drivers[on], on, prim, shp, verdict, detail, inputs)
         rep.extra["per_primitive"] = {k: dict(v, wall=round(v["wall"], 1)) for k, v in sorted(per.items())}
+        _python_primitives(rep, d, tier)
         # ---- E3: float16 lemmas over the IR-extracted Pack/Unpack terms (all 2^32 / 2^16 inputs at once)
         for on in optnames[:1]:
             float_lemmas(rep, _MODS[on], on)
@@ -554,13 +557,94 @@ def main(tier: str) -> int:
                        "one-bit signed reads are unspecified by the header's own documentation and are not asserted",
                        "CopyBits with overlapping unaligned ranges is documented undefined and not exercised"]
     rep.not_covered = ["C++ bitspan: subspan/padAndMoveToAlignment as units (exercised through generated codecs only), float16 pack/unpack lemmas (C terms only)",
-                       "Python Serializer/Deserializer primitives (E4 not landed)",
+                       "Python: primitives are driven from a directly constructed Serializer/Deserializer state; numpy >= 2 scalar-promotion errors are not modelled",
                        "offsets/lengths/sizes beyond the stated ranges"]
     rep.extra["explanation"] = ("own LLVM-IR symbolic executor (llsym) over the freshly generated C support header; per (primitive, shape) one z3 "
                                 "query per path: NOT(spec) under the path condition must be unsat; interpreter obligations (bounds, uninitialised "
                                 "reads, shifts, nsw overflow, memcpy overlap, reached assert) checked on every path")
     rep.extra["trusted_base"] = ["clang 14", "z3 5.1", "llsym interpreter (co-simulated against the native binary every run)"]
     return rep.write()
+
+
+# ---------------------------------------------------------------------------------------------- Python target (E4 pysym)
+_PYGEN = []
+
+
+def _py_chunk(cs):
+    from pysym import pycodec, pyprims
+    if not _PYGEN:
+        _PYGEN[:] = [(os.getpid(), pycodec.PyUnit(_PYGEN_DIR[0]))]
+    ns = _PYGEN[0][1].ns
+    out = []
+    for c in cs:
+        t0 = time.time()
+        try:
+            v, detail, inp = pyprims.run_case(ns, c)
+        except Exception as e:  # never a pass
+            v, detail, inp = "unknown", f"{type(e).__name__}: {str(e)[-200:]}", None
+        out.append((c, v, detail, inp, time.time() - t0))
+    return out
+
+
+_PYGEN_DIR = [None]
+
+
+def _python_primitives(rep, d, tier):
+    """Serializer.add_* / Deserializer.fetch_* of the freshly generated nunavut_support.py, one query per (primitive, offset, length, size)"""
+    from pysym import pyprims
+    out = d / "py_support"
+    build.nnvg("py", out, None, opts={})
+    _PYGEN_DIR[0] = out
+    cs = pyprims.cases(tier)
+    # the float conversion lemmas (one per format and overflow branch) are proved once here, before the workers fork: they inherit the
+    # solver-answer caches (keyed by AST identity, which is stable across fork) instead of re-proving the same lemma in 16 processes
+    _PYGEN[:] = []
+    warm = [c for c in cs if c.side == "ser" and c.op.startswith("add_aligned_f") and c.off == 0]
+    first = _py_chunk(warm)
+    rng = random.Random(common.seed())
+    rng.shuffle(cs)
+    cs = [c for c in cs if c not in warm]
+    chunks = [cs[i:i + 40] for i in range(0, len(cs), 40)]
+    per = {}
+    _PYGEN[:] = [(-1, _PYGEN[0][1])] if _PYGEN else []          # workers re-use the parent's imported unit (pid check relaxed below)
+    for res in [first] + common.pmap(_py_chunk, chunks):
+        for c, v, detail, inp, wall in res:
+            k = f"py:{c.op}"
+            per.setdefault(k, dict(shapes=0, unsat=0, wall=0.0))
+            per[k]["shapes"] += 1
+            per[k]["wall"] += wall
+            key = f"py:{c.op}:{c.off}:{c.n}:{c.extra}"
+            if v == "unsat":
+                per[k]["unsat"] += 1
+                rep.discharged(1, key=key, sample=(dict(target="py", primitive=c.op, bit_offset=c.off, length=c.n, extra=c.extra, verdict="unsat for all data",
+                                                        wall_s=round(wall, 3)) if rng.random() < 0.002 else None))
+            elif v == "unknown":
+                rep.unknown(key, detail)
+            else:
+                ok, how = pyprims.replay(out, c, inp or {}) if inp else (False, "no model")
+                rd = common.replay_dir("C14", dict(key=key, inp=inp))
+                (rd / "case.json").write_text(json.dumps(dict(case=c._asdict(), inputs=inp, detail=detail, native=how), indent=1, default=str))
+                (rd / "replay.sh").write_text("#!/bin/bash\n# regenerates nunavut_support.py from /repo's current nunavut and runs the counterexample natively (real numpy)\n"
+                                              f"cd /verif && bin/ensure_env.sh && PYTHONPATH=/verif .venv/bin/python -m checks.C14 --replay-py {rd}/case.json\n")
+                os.chmod(rd / "replay.sh", 0o755)
+                rep.counterexample(f"py:{c.op}", f"[py] {c.op} offset={c.off} length={c.n} extra={c.extra}: {detail}; inputs={inp} :: {how[:200]}", str(rd), ok)
+    rep.extra["per_primitive_python"] = {k: dict(v, wall=round(v["wall"], 1)) for k, v in sorted(per.items())}
+    rep.functions.append("Python: nunavut_support.Serializer.add_aligned_*/add_unaligned_*/pad_to_alignment/_unsigned_to_bytes/_float_to_bytes, "
+                         "Deserializer.fetch_aligned_*/fetch_unaligned_*/_unsigned_from_bytes, ZeroExtendingBuffer.get_byte/get_unsigned_slice (pysym, numpy stand-in)")
+
+
+def _replay_py_cli(path: str) -> int:
+    from pysym import pyprims
+    rec = json.loads(pathlib.Path(path).read_text())
+    with common.scratch("nvc14py_") as d:
+        out = d / "py_support"
+        build.nnvg("py", out, None, opts={})
+        c = rec["case"]
+        ex = c["extra"]
+        case = pyprims.Case(c["side"], c["op"], c["off"], c["n"], tuple(ex) if isinstance(ex, list) else ex)
+        ok, how = pyprims.replay(out, case, rec["inputs"] or {})
+        print(("REPRODUCED: " if ok else "not reproduced: ") + how)
+        return 11 if ok else 0
 
 
 def _asserts(on: str) -> bool:
@@ -697,4 +781,6 @@ def replay_cli(argv):
 if __name__ == "__main__":
     if len(sys.argv) > 1 and sys.argv[1] == "--replay":
         sys.exit(replay_cli(sys.argv[2:]))
+    if len(sys.argv) > 1 and sys.argv[1] == "--replay-py":
+        sys.exit(_replay_py_cli(sys.argv[2]))
     sys.exit(main(sys.argv[1] if len(sys.argv) > 1 else "quick"))
